@@ -29,10 +29,13 @@ CFG = {'harness': 'det',
                'to 524352 bits (finite table by vm_compute, bound in the statement); every non-empty error inside 32 '
                'consecutive serial bits has non-zero syndrome (algebraic, any length). Hence every 1..3-bit change and '
                'every <=32-bit serial burst of an accepted chunk is rejected; the chunk size bound (65560 bytes) is '
-               'derived from the u16 length field, not assumed.',
+               'derived from the u16 length field, not assumed. In the MSB-first bit numbering every burst of <=31 '
+               'bits is rejected (inverse register step + finite check of 255 x 8 candidates), and the claim for '
+               'exactly 32 bits is refuted by a proved witness (accepted chunk, 32 contiguous MSB-first payload bits '
+               'changed, accepted again).',
  'level_note': 'trusted: Coq kernel + VM; hand model tied by differential run (10 accessors + payload compared); crc32c '
-               'crate modelled and compared directly; extraction; harness. Bursts are in serial (LSB-first) bit order; '
-               'unaligned 26..32-bit windows in MSB-first order are exercised by the harness but not covered by the '
-               'burst theorem',
+               'crate modelled and compared directly; extraction; harness. The burst-32 theorem is in serial '
+               '(LSB-first) bit order; in MSB-first order 31 is proved and 32 refuted (witness cases '
+               'burst-msb-first-generator-multiple are accepted by model and implementation alike)',
  'note': 'model = spec by C03_chunk_exact, so a difference is an input on which the implementation departs from the '
          'documented chunk layout or CRC rule'}
